@@ -61,6 +61,7 @@ class Ctx:
         self.hashes = set()
         self.violations = []      # dicts: sig, msg, replay(dict)
         self.inconclusive = []    # strings
+        self.partial = False      # VERIF_ONLY_SUBS was used: never a verdict of 'held'
         self.assumptions = []
         self.extra = {}
         self.workroot = tempfile.mkdtemp(prefix="mtblv-%s-" % pid, dir=os.environ.get("VERIF_TMP", "/var/tmp"))
@@ -97,6 +98,10 @@ class Ctx:
             max_workers=NCPU, prefix="", start=0, cases=None, scan_stderr=None, closed_stdin_every=0):
         """run `exe sub --seed S --start a --count n ...` over [start,start+total) in parallel"""
         tag = tag or sub
+        only = os.environ.get("VERIF_ONLY_SUBS")       # tools/seedtest.py only: run just the named sub-commands of a tier (the run then reports itself as partial)
+        if only and sub not in only.split(","):
+            self.partial = True
+            return
         if cases is not None:
             chunks = [(c, 1) for c in cases]
         else:
@@ -165,6 +170,9 @@ class Ctx:
                         self.inconclusive.append("case %s of %s exceeded the watchdog twice" % (cur, sub))
                     elif again is not None:
                         self.violation(again[0], again[1], replay)
+                elif rc == -9:
+                    # SIGKILL never comes from the code under test: an operator, a clean-up script or the OOM killer ended the process
+                    self.inconclusive.append("harness %s %s was killed with SIGKILL from outside in case %s (no verdict for that chunk)" % (os.path.basename(exe), sub, cur))
                 elif rc == 75:
                     pass      # the harness reported a violation itself (V line) and had to stop the process; continue with the next case
                 elif rc in (76, 97, 98, 99) or re.search(r"/verif/harness/[\w.]+:\d+:\d+: runtime error", se or "") or \
@@ -237,6 +245,8 @@ class Ctx:
                 known[hit["signature"]] = (hit, known[hit["signature"]][1] + 1)
             else:
                 new.append(v)
+        if self.partial:
+            self.inconclusive.append("partial run (VERIF_ONLY_SUBS=%s): only violations are meaningful" % os.environ.get("VERIF_ONLY_SUBS"))
         # coverage floors -> inconclusive
         for name, minimum in (floors or {}).items():
             if self.stats.get(name, 0) < minimum:
